@@ -1877,7 +1877,9 @@ export class AnyOfDiscriminatedRuntype extends BaseRuntype {
     const printingContext = this.getPrintingContext(ctx);
     const refTarget = this.getRefTarget(runtype);
     if (refTarget != null) {
-      this.ensureContextualDefinition(refTarget.name, refTarget.target, ctx);
+      // same body as a plain reference to the type would store (BaseRefRuntype.schema): the override, if any
+      const schemaTarget = printingContext.getNamedTypeSchemaOverride(refTarget.name) ?? refTarget.target;
+      this.ensureContextualDefinition(refTarget.name, schemaTarget, ctx);
       return printingContext.getRef(refTarget.name);
     }
 
